@@ -43,13 +43,35 @@ static void algebra_case(const Pattern &pa, const std::vector<int> &rows, int R)
     Vec tg, tr, pg, pr, sg, sr; for (int i=0;i<n;++i) for (int j=0;j<n;++j) { tg.push_back(Td[i][j]); tr.push_back(Ad[j][i]); scalar s=0; for (int k=0;k<n;++k) s+=Ad[i][k]*Ad[k][j]; pg.push_back(Pd[i][j]); pr.push_back(s); sg.push_back(Sd[i][j]); sr.push_back(alpha*Ad[i][j]); }
     hx::prove_eq_vec("distributed transpose = serial transpose of the assembled matrix", tg, tr); hx::prove_eq_vec("distributed product A*A = serial product", pg, pr); hx::prove_eq_vec("distributed scale + sort_rows = serial scaling", sg, sr); }); }
 
+// rectangular matrices, rows and columns partitioned independently (ranks owning rows but no columns, columns but no rows, or nothing)
+static void rect_case(const Pattern &pa, const std::vector<int> &rows, const std::vector<int> &cols, int R) { hx::run_case("rect/R"+std::to_string(R)+"/rows"+pname(rows)+"/cols"+pname(cols)+"/"+pa.name, [&]() {
+    int n=pa.n, m=pa.m; SCrs A=hx::symbolic_matrix(pa,"a",false); Vec x=hx::sym_vector("x",m), y=hx::sym_vector("y",n,-0.5); scalar alpha=var("alpha",0.75), beta=var("beta",-1.25);
+    std::vector<int> rbeg(R+1,0), cbeg(R+1,0); for (int r=0;r<R;++r) { rbeg[r+1]=rbeg[r]+rows[r]; cbeg[r+1]=cbeg[r]+cols[r]; }
+    Vec y_out(n); std::vector<std::vector<scalar>> Gd(n,Vec(m,scalar(0))), Td(m,Vec(n,scalar(0))), Pd(m,Vec(m,scalar(0))); std::vector<ptrdiff_t> grows(R), gcols(R), lcols(R), lshift(R);
+#ifdef HX_SYM
+    symmpi::symx_reduce()=[](int op, void *acc, const void *in) { scalar a, b; memcpy(&a,acc,8); memcpy(&b,in,8); if (op==MPI_SUM) a=a+b; else if (op==MPI_PROD) a=a*b; else throw std::runtime_error("symmpi: only SUM/PROD on symbolic scalars"); memcpy(acc,&a,8); };
+#endif
+    symmpi::run(R,[&](int rank) { amgcl::mpi::communicator comm(MPI_COMM_WORLD); int rb=rbeg[rank], re=rbeg[rank+1], nl=re-rb, cb=cbeg[rank], ml=cbeg[rank+1]-cb;
+        auto loc=strip(A,rb,re); DM D(comm,*loc,ml); grows[rank]=D.glob_rows(); gcols[rank]=D.glob_cols(); lcols[rank]=D.loc_cols(); lshift[rank]=D.loc_col_shift();
+        gather_dense(D,rb,cb,{},Gd);
+        NV X(ml,false), Y(nl,false); for (int i=0;i<ml;++i) X[i]=x[cb+i]; for (int i=0;i<nl;++i) Y[i]=y[rb+i];
+        auto T=amgcl::mpi::transpose(D); gather_dense(*T,cb,rb,{},Td);
+        auto P=amgcl::mpi::product(*T,D); gather_dense(*P,cb,cb,{},Pd);
+        D.move_to_backend(BE::params(),true); D.mul(alpha,X,beta,Y); for (int i=0;i<nl;++i) y_out[rb+i]=Y[i];
+    });
+    bool sz=true; for (int r=0;r<R;++r) sz=sz&&grows[r]==n&&gcols[r]==m&&lcols[r]==cols[r]&&lshift[r]==cbeg[r]; hx::require("rectangular: global sizes, local column counts and column offsets equal the partition on every rank", sz);
+    auto Ad=A.dense(); Vec Ax=hx::dense_mv(A,x), yr; for (int i=0;i<n;++i) yr.push_back(alpha*Ax[i]+beta*y[i]);
+    Vec gg, gr, tg, tr, pg, pr; for (int i=0;i<n;++i) for (int j=0;j<m;++j) { gg.push_back(Gd[i][j]); gr.push_back(Ad[i][j]); tg.push_back(Td[j][i]); tr.push_back(Ad[i][j]); } for (int i=0;i<m;++i) for (int j=0;j<m;++j) { scalar s=0; for (int k=0;k<n;++k) s+=Ad[k][i]*Ad[k][j]; pg.push_back(Pd[i][j]); pr.push_back(s); }
+    hx::prove_eq_vec("rectangular: local + remote parts assemble to the global matrix", gg, gr); hx::prove_eq_vec("rectangular: distributed mul = serial product", y_out, yr); hx::prove_eq_vec("rectangular: distributed transpose = serial transpose", tg, tr); hx::prove_eq_vec("rectangular: distributed product A^T A = serial product", pg, pr); }); }
+
 int main(int argc, char **argv) {
     hx::parse_args(argc,argv); bool T=hx::thorough(); hx::Rng rng(hx::args().seed);
     hx::encodes("mpi::distributed_matrix<builtin<scalar>> (constructor from a strip with global columns, comm_pattern, move_to_backend, mul, residual), mpi::inner_product, communicator::reduce / exclusive_sum, mpi::transpose, mpi::product (incl. remote_rows), mpi::scale, mpi::sort_rows");
     hx::assume_note("MPI is an in-process stand-in (lib/symmpi/mpi.h): ranks are threads under a global baton (no concurrency in the term store), point-to-point messages are buffered and matched FIFO per (source, destination, tag), collectives are rendezvous that reduce in rank order; amgcl uses no wildcard receives, so under this contract results cannot depend on arrival order");
     hx::assume_note("all matrix values, vectors and coefficients symbolic; row partitions = all compositions of n into R parts (empty ranks included); rows and columns are partitioned alike (square matrices)");
-    hx::assume_note("NOT covered: rectangular distributed matrices with different row/column partitions, the Gershgorin / power-method spectral radius, real MPI runtimes, more than 4 ranks");
+    hx::assume_note("NOT covered: the Gershgorin / power-method spectral radius, real MPI runtimes, more than 4 ranks");
     std::vector<Pattern> ps{hx::band_pattern(3,1),hx::dense_pattern(3,3),hx::mask_pattern(3,3,0x0a6,false),hx::band_pattern(4,1),hx::mask_pattern(4,4,0x9a5c,true)}; for (int k=0;k<(T?12:3);++k) ps.push_back(hx::mask_pattern(4,4,rng.next()&0xffff,false));
     for (auto &p : ps) for (int R=1;R<=(T?4:3);++R) { std::vector<std::vector<int>> parts; compositions(p.n,R,{},parts); for (auto &pt : parts) if (T || p.n<=3 || rng.below(3)==0 || R==1) algebra_case(p,pt,R); }
+    for (auto &p : std::vector<Pattern>{hx::dense_pattern(3,2),hx::mask_pattern(3,2,0x2d,false),hx::mask_pattern(2,3,0x1e,false),hx::random_pattern(4,3,rng,2,false)}) for (int R=2;R<=3;++R) { std::vector<std::vector<int>> rp, cp; compositions(p.n,R,{},rp); compositions(p.m,R,{},cp); size_t k=0; for (auto &a : rp) for (auto &b : cp) { ++k; if (T || p.n*p.m<=6 && (R==2 || k%3==0) || k%7==0) rect_case(p,a,b,R); } }
     return hx::finish();
 }
